@@ -6931,6 +6931,13 @@ def aten_narrow(self: TTensor, dim: INT64, start: INT64, length: INT64) -> TTens
     length = op.Reshape(length, op.Constant(value_ints=[-1]))
 
     end = op.Add(start, length)
+    # A negative start counts from the end of the dimension; when start + length reaches
+    # that end the sum is 0, which Slice would read as index 0: slice to the end instead.
+    end = op.Where(
+        op.And(op.Less(start, 0), op.Equal(end, 0)),
+        op.Constant(value_ints=[_INT64_MAX]),
+        end,
+    )
     return op.Slice(self, start, end, dim)
 
 
